@@ -111,6 +111,9 @@ META["rule"] += (
 META["rule"] += (
     " " + 'Added after the seventh round: series with NaN samples and missing_values=False, the two storage modes against each other.')
 
+META["rule"] += (
+    " " + "Added after the eighth round: family 'derived plots': JointRecurrencePlot (product of the two reference matrices) and RecurrenceNetwork answer the same line statistics.")
+
 SCALARS = [
     ("max_diaglength", "diag", None), ("determinism", "diag", "frac"),
     ("average_diaglength", "diag", "avg"), ("diag_entropy", "diag", "ent"),
@@ -563,6 +566,8 @@ def run(ctx):
                 long_lines_case(ctx, RP, r, cid, ctx.thorough)
             elif fam == 5 and (k // 8) % 10 == 7:
                 unmasked_nan_case(ctx, RP, r, cid)
+            elif fam == 5 and (k // 8) % 5 == 1:
+                subclass_case(ctx, r, cid)
             elif fam == 5:
                 if (k // 8) % 2:
                     local_rate_case(ctx, RP, r, cid, nmax)
@@ -662,6 +667,41 @@ def random_api_case(ctx, RP, r, cid, nmax):
     tags = []
     api_pair(ctx, RP, x, R, miss, cid, tags, case, r, all_mins=False,
              threshold=eps, **kw)
+
+
+def subclass_case(ctx, r, cid):
+    """The plots derived from RecurrencePlot answer the same line statistics
+    for the matrix they stand for: the joint plot of two records (product
+    of their two matrices), the recurrence network (same matrix as the plot
+    of its record)."""
+    from pyunicorn.timeseries import JointRecurrencePlot, RecurrenceNetwork
+    n = int(r.integers(1, 25))
+    x = r.integers(-16, 17, (n, int(r.integers(1, 3)))) / 8.0
+    y = r.integers(-16, 17, (n, int(r.integers(1, 3)))) / 8.0
+
+    def mat(z, eps):
+        E = ref.as2d(ref.f32(z))
+        return ref.threshold_matrix(ref.distance_matrix(E, E, "supremum"),
+                                    eps)
+    ex = float(r.integers(1, 24)) / 8.0 + 1 / 16.0
+    ey = float(r.integers(1, 24)) / 8.0 + 1 / 16.0
+    if r.random() < 0.6:
+        ok, obj = ctx.call(JointRecurrencePlot, x, y, metric=("supremum",) * 2,
+                           threshold=(ex, ey), silence_level=3)
+        R = mat(x, ex) * mat(y, ey)
+        tags, case = ["joint"], {"x": x, "y": y, "threshold": (ex, ey)}
+    else:
+        ok, obj = ctx.call(RecurrenceNetwork, x, metric="supremum",
+                           threshold=ex, silence_level=3)
+        R = mat(x, ex)
+        tags, case = ["network"], {"x": x, "threshold": ex}
+    ctx.evals()
+    if not ok:
+        ctx.violation(sig(type(obj).__name__ + ".__init__", "raises", tags),
+                      {**case, "exc": repr(obj)}, cid)
+        return
+    ctx.count("derived_plot_cases")
+    api_judge(ctx, obj, R, None, cid, tags, case, r, all_mins=False)
 
 
 def local_rate_case(ctx, RP, r, cid, nmax):
